@@ -345,4 +345,6 @@ func (store *HStore) VerifGCRange(bucketID, start, end, noGCDays int) (int, int,
 
 func (store *HStore) VerifBucketHome(bucketID int) string { return store.buckets[bucketID].Home }
 
-func (store *HStore) VerifNumGCHistory(bucketID int) int { return len(store.buckets[bucketID].GCHistory) }
+func (store *HStore) VerifNumGCHistory(bucketID int) int {
+	return len(store.buckets[bucketID].GCHistory)
+}
